@@ -13,9 +13,9 @@ def to_ir(self: Expression) -> ir.Expression:
 
 @to_ir.register(Integer)
 def to_ir_integer(self: Integer):
-    # This is sensible as long as we only support floating point values and don't support division. If either of those
-    # ceases to be true, this will need to be updated.
-    return ir.IntegerLiteral(self.value)
+    # All tensor values are floating point, so an integer literal is emitted as a floating point literal. Emitting a
+    # 32-bit integer literal would wrap literals that do not fit and overflow in products of literals.
+    return ir.FloatLiteral(float(self.value))
 
 
 @to_ir.register(Float)
